@@ -31,7 +31,8 @@ GEN = os.path.join(vlib.COQ, "Gen", "C14_gen.v")
 METHOD_OF = {"plain_computeParams": "StrategyOnePlusLambda.computeParams",
              "plain_update_scalar": "StrategyOnePlusLambda.update (scalar slice)",
              "active_computeParams": "StrategyActiveOnePlusLambda.__init__ / _compute_lambda_parameters (parameters)",
-             "mo_computeParams": "StrategyMultiObjective.__init__ (parameters)"}
+             "mo_computeParams": "StrategyMultiObjective.__init__ (parameters)",
+             "active_rank1_scalar": "StrategyActiveOnePlusLambda._rank1update (scalar slice)"}
 
 
 def _typechecks(txt):
